@@ -7,10 +7,22 @@
      nodes and root are those of the queue construction; the root is a function of the ordered leaf list
      and no two lists share a root (history over the whole run in TLC registers 3 / 4);
      for every position the real sibling path is the specified one, the real Verify accepts the genuine
-     leaf and rejects every other leaf or inner hash presented with it; leaves not in the tree get no path. *)
+     leaf and rejects every other leaf or inner hash presented with it; leaves not in the tree get no path.
+
+   HISTORIES (events of a behaviour whose reset carries "hist": adapter merklehist / driver merkle-hist, generated
+   from MerkleHist.tla): one caller-owned leaf list, grown by AppendLeaf; Compute(shape, i, j, slot) hands the real
+   library the sub-range i..j of that storage (a re-slice with the following leaves in its capacity, a clipped
+   re-slice, a freshly built list, a reused scratch buffer) and may keep the tree; Reread(slot) asks a kept tree again.
+   The state remembers the list AS ORIGINALLY GIVEN (ids: the values logged when each leaf was appended; fids: the
+   hashes of the Transactions / ChangeLogSlice / DeputyNodes objects) and, per slot, the range a kept tree was built
+   over.  Every result - nodes, root, root of a second tree over the same slice, sibling paths, Verify, the three
+   MerkleRootSha wrappers, a kept tree asked again - must be the pure function of the range as originally given
+   (so it cannot depend on any other computation of the history), and after EVERY call the caller's lists, read
+   back from the shared storage, must be exactly what was given (no computation disturbs another one's input). *)
 EXTENDS MerkleOps, TraceBase
-VARIABLE ls
-tvars == <<ls, l>>
+VARIABLES ls, ids, fids, hd
+tvars == <<ls, ids, fids, hd, l>>
+NoHist == ids' = <<>> /\ fids' = <<>> /\ hd' = <<>>
 ASSUME TLCSet(3, <<>>) /\ TLCSet(4, <<>>)
 
 Hit(x, y) == {t \in ToSet(E.pairs) : t[1] = x /\ t[2] = y}
@@ -50,11 +62,61 @@ RowOK(atoms) ==
   /\ IF atoms \in DOMAIN ro THEN TRUE ELSE TLCSet(3, (atoms :> E.roothex) @@ ro)
   /\ IF E.roothex \in DOMAIN co THEN TRUE ELSE TLCSet(4, (E.roothex :> atoms) @@ co)
 
+\* ---- histories over shared storage
+NoTree == <<0>>                                      \* ids are >= 1
+Record(atoms, roothex) ==                            \* the run-wide root function (registers 3 / 4), as in RowOK
+  LET ro == TLCGet(3)  co == TLCGet(4) IN
+  /\ (atoms \in DOMAIN ro => ro[atoms] = roothex)
+  /\ (roothex \in DOMAIN co => co[roothex] = atoms)
+  /\ IF atoms \in DOMAIN ro THEN TRUE ELSE TLCSet(3, (atoms :> roothex) @@ ro)
+  /\ IF roothex \in DOMAIN co THEN TRUE ELSE TLCSet(4, (roothex :> atoms) @@ co)
+ListsKept(i0, f0) == E.list = i0 /\ E.famlist = f0    \* the caller's lists, read back after the call, are what was given
+
+AppendOK(x) ==
+  /\ E.leaf # 0 /\ Len(E.famleaf) = 3
+  /\ \A k \in 1..Len(ls) : (ls[k] = x) <=> (ids[k] = E.leaf)                       \* instantiation is faithful
+  /\ \A f \in 1..3 : \A k \in 1..Len(ls) : (ls[k] = x) <=> (fids[f][k] = E.famleaf[f])
+  /\ ListsKept(Append(ids, E.leaf), [f \in 1..3 |-> Append(fids[f], E.famleaf[f])])
+
+ComputeOK(i, j) ==
+  LET given == SubSeq(ids, i + 1, j)
+      nodes == Nodes(OrH, given)  root == Root(OrH, E.empty, given) IN
+  /\ \A k \in 1..Len(nodes) : nodes[k] # 0
+  /\ E.nodes = nodes /\ E.root = root /\ E.root2 = root         \* pure function of the range as originally given
+  /\ {E.proofs[k].pos : k \in 1..Len(E.proofs)} = 1..Len(given)
+  /\ \A k \in 1..Len(E.proofs) :
+       LET p == E.proofs[k]  sib == Siblings(given[p.pos], nodes) IN
+       /\ p.leaf = given[p.pos]                                 \* the leaf the caller finds at that position
+       /\ p.err = "" /\ p.sib = sib /\ p.ok = TRUE
+       /\ Verify(OrH, given[p.pos], root, sib)
+  /\ \A f \in 1..3 : E.famroot[f] = Root(OrH, E.empty, SubSeq(fids[f], i + 1, j))   \* Transactions / ChangeLogSlice / DeputyNodes
+  /\ ListsKept(ids, fids)
+  /\ Record(SubSeq(ls, i + 1, j), E.roothex)
+
+RereadOK(given) ==
+  LET nodes == Nodes(OrH, given) IN
+  /\ \A k \in 1..Len(nodes) : nodes[k] # 0
+  /\ E.nodes = nodes /\ E.nodes2 = nodes /\ E.root = Root(OrH, E.empty, given)      \* a kept result is still what it was
+  /\ ListsKept(ids, fids)
+
 \* "= TRUE": one boolean, no branching on the disjunctions inside
-TReset == Ev("reset") /\ ls' = <<>> /\ RowOK(<<>>) = TRUE
-TPush == Ev("Push") /\ ls' = Append(ls, E.a[1]) /\ RowOK(Append(ls, E.a[1])) = TRUE
-TPop == Ev("Pop") /\ ls # <<>> /\ ls' = SubSeq(ls, 1, Len(ls) - 1) /\ RowOK(SubSeq(ls, 1, Len(ls) - 1)) = TRUE
-TRow == Ev("row") /\ ls' = <<>> /\ RowOK(E.atoms) = TRUE          \* seeded grid: the list is the input itself
-TraceNext == TReset \/ TPush \/ TPop \/ TRow
-TraceSpec == l = 1 /\ ls = <<>> /\ [][TraceNext]_tvars
+TReset == Ev("reset") /\ "hist" \notin DOMAIN E /\ ls' = <<>> /\ NoHist /\ RowOK(<<>>) = TRUE
+TPush == Ev("Push") /\ ls' = Append(ls, E.a[1]) /\ NoHist /\ RowOK(Append(ls, E.a[1])) = TRUE
+TPop == Ev("Pop") /\ ls # <<>> /\ ls' = SubSeq(ls, 1, Len(ls) - 1) /\ NoHist /\ RowOK(SubSeq(ls, 1, Len(ls) - 1)) = TRUE
+TRow == Ev("row") /\ ls' = <<>> /\ NoHist /\ RowOK(E.atoms) = TRUE          \* seeded grid: the list is the input itself
+THReset == Ev("reset") /\ "hist" \in DOMAIN E /\ ls' = <<>> /\ ids' = <<>> /\ fids' = <<<<>>, <<>>, <<>>>>
+           /\ hd' = [s \in 1..E.slots |-> NoTree]
+TAppend == Ev("AppendLeaf") /\ Len(fids) = 3 /\ AppendOK(E.a[1]) = TRUE
+           /\ ls' = Append(ls, E.a[1]) /\ ids' = Append(ids, E.leaf) /\ fids' = [f \in 1..3 |-> Append(fids[f], E.famleaf[f])]
+           /\ hd' = hd
+TCompute == Ev("Compute") /\ Len(fids) = 3
+            /\ E.a[2] <= E.a[3] /\ E.a[3] <= Len(ls) /\ E.a[4] \in 0..Len(hd)
+            /\ ComputeOK(E.a[2], E.a[3]) = TRUE
+            /\ hd' = (IF E.a[4] = 0 THEN hd ELSE [hd EXCEPT ![E.a[4]] = SubSeq(ids, E.a[2] + 1, E.a[3])])
+            /\ UNCHANGED <<ls, ids, fids>>
+TReread == Ev("Reread") /\ Len(fids) = 3 /\ E.a[1] \in 1..Len(hd) /\ hd[E.a[1]] # NoTree
+           /\ RereadOK(hd[E.a[1]]) = TRUE
+           /\ UNCHANGED <<ls, ids, fids, hd>>
+TraceNext == TReset \/ TPush \/ TPop \/ TRow \/ THReset \/ TAppend \/ TCompute \/ TReread
+TraceSpec == l = 1 /\ ls = <<>> /\ ids = <<>> /\ fids = <<>> /\ hd = <<>> /\ [][TraceNext]_tvars
 ====
